@@ -56,4 +56,10 @@ PROPS = {
         bounded=["bounded.c16_typecasts"],
         trusted=["T9 floats are modelled as reals: for the inputs in scope, multiplying a double by 2.0**k is exact (IEEE-754, no overflow/underflow), int() truncates toward zero; 2.0**k is an uninterpreted positive real function with 2**k * 2**-k == 1"],
     ),
+    "C20": dict(
+        level="proof",
+        specs=["specs.c20_boot"],
+        bounded=["bounded.c20_boot"],
+        trusted=["T4 struct model", "the socket is an opaque object whose send() is recorded in the ghost trace"],
+    ),
 }
